@@ -34,7 +34,8 @@ NODES = ["Symbol", "Integer", "Rational", "RealDouble", "Constant", "Add", "Mul"
          "And", "Or", "Xor", "Not", "Contains", "Interval", "BooleanAtom", "Infty", "UnevaluatedExpr"]
 PRINTERS = [("ccode_double", ["ccode", None, "double"], False), ("ccode_float", ["ccode", None, "float"], True),
             ("c89code", ["c89code", None], False), ("c99code", ["c99code", None], False)]
-BATCH = 28
+BATCH = 28           # slots of a generated batch (bounded by Hypothesis' choice-sequence budget)
+TABLE_BATCH = 96     # expressions per batch of the deterministic table (gcc's start-up cost dominates a compilation)
 
 # known-finding tags (GUIDE "Known findings protocol"); an exclusion is applied iff self.tag_active(tag)
 TAG_INT = "ccode_integer_literals_make_integer_arithmetic"       # KF-C15-01: 1/Piecewise((2,c),(3,True)) -> 1/((c)?(2):(3)) == 0
@@ -289,8 +290,9 @@ def table(full=True):
         out.append(["exp", a])
         out.append(["pow", ["constant", "pi"], a])
     for n in cgen.BIG_INTS:
-        out += [["mul", I(n), x], ["add", I(n), y], ["div", z, I(n)], ["Lt", x, I(n)], ["max", L(I(n), t)],
-                ["mul", Q(n, 7), x], ["atan", ["mul", I(n), x]], ["mul", I(-n), ["sin", x]]]
+        ctx = [["mul", I(n), x], ["add", I(n), y], ["div", z, I(n)], ["Lt", x, I(n)], ["max", L(I(n), t)],
+               ["mul", Q(n, 7), x], ["atan", ["mul", I(n), x]], ["mul", I(-n), ["sin", x]]]
+        out += ctx if full else ctx[:3] + ctx[6:]
     for v in cgen.DOUBLES:
         out += [["mul", ["real_double", v], x], ["add", ["real_double", -v], y], ["pow", ["real_double", abs(v)], z],
                 ["div", t, ["real_double", v]]]
@@ -307,7 +309,9 @@ def table(full=True):
              ["not", c2], ["and", L(c1, c3, c4)], ["or", L(c4, ["not", c1])], ["xor", L(c1, c4)], ["not", c3], ["not", c5],
              ["and", L(c7, c8)], ["or", L(c9, c6)], ["xor", L(c7, c1)], ["not", ["xor", L(c1, c2)]], ["true"], ["false"],
              ["Eq", x, y], ["Ne", x, y], ["Le", x, y], ["Ge", x, y], ["Eq", ["abs", x], ["abs", y]]]
-    for c in logic:
+    for k, c in enumerate(logic):
+        if not full and k % 2 == 1 and k > 10:
+            continue
         out += [c, ["mul", I(2), c], ["add", c, x], ["sub", x, c], ["div", y, ["add", c, I(2)]],
                 ["piecewise", L(L(["sin", x], c), L(["cos", y], ["true"]))],
                 ["piecewise", L(L(I(1), c), L(I(2), ["not", c]), L(z, ["true"]))],
@@ -335,7 +339,7 @@ class C15(Check):
     pid = "C15"
     exe = "driver"
     builds = [("main", ("driver",))]
-    rule = ("batches of %d expressions over x, y, z, t: a deterministic table (every node type the printers accept, "
+    rule = ("batches of %d (table) / %d (generated) expressions over x, y, z, t: a deterministic table (every node type the printers accept, "
             "codegen.cpp bvisit list, in several argument shapes and printing contexts: term of a sum, numerator, "
             "denominator, negated, argument; integer literals around 2^31 2^53 2^63 2^64 and beyond; integer -4..5 and "
             "rational powers; Max/Min of 2-5; relationals / And / Or / Xor / Not / Contains(Interval) in arithmetic "
@@ -360,13 +364,13 @@ class C15(Check):
             "position where StrPrinter parenthesizes by precedence, KF-C15-04 Contains(., (-oo, oo)).  "
             "Non-trivial: expression whose tree has a Rational, a negative or rational power, or a Piecewise; distinct by "
             "recipe.  classes: judged:<printer> = judged (text, vector) pairs, node:<T> = judged expressions containing T."
-            % BATCH)
+            % (TABLE_BATCH, BATCH))
     assumptions = ["mpmath principal branches are the reference (DESIGN 3.5)",
                    "glibc libm (double and float functions) is accurate to a few ulp (factor 64)",
                    "gcc -O0 -std=gnu99 -fno-builtin implements C arithmetic on IEEE doubles / floats",
                    "a printer that throws declines; emitted code that uses an identifier which is neither a bound symbol "
                    "nor an ISO C99 <math.h> name is the user's to complete and is declined"]
-    tiers = {"quick": {"examples": 64, "shrink_calls": 24}, "thorough": {"examples": 3200, "shrink_calls": 60}}
+    tiers = {"quick": {"examples": 48, "shrink_calls": 24}, "thorough": {"examples": 3200, "shrink_calls": 60}}
     case_timeout = 900
     timeout = 120.0
 
@@ -374,8 +378,8 @@ class C15(Check):
     def enumerate(self, tier):
         tb = table(tier != "quick")
         exprs = [mk_expr(e, [V[(i + j) % len(V)] for j in range(cgen.NVEC)]) for i, e in enumerate(tb)]
-        for i in range(0, len(exprs), BATCH):
-            yield {"exprs": exprs[i:i + BATCH]}
+        for i in range(0, len(exprs), TABLE_BATCH):
+            yield {"exprs": exprs[i:i + TABLE_BATCH]}
 
     def strategy(self, tier):
         n = 7 if tier == "quick" else 10
